@@ -290,6 +290,16 @@ fn check(c: &Case, st: &mut Stats) -> Verdict {
     let by_sub = combine_ingredients(&sub);
     vensure!(keys(&by_sel) == keys(&by_sub), "c19.selection-differs", "combining the selection {sel:?} differs from combining that sub-list");
     check_combined(&by_sub, &sub_q, "combine_ingredients (sub-list)")?;
+    // merging two combined lists == combining the concatenation
+    if all.len() >= 2 {
+        let cut = 1 + (c.picks.first().copied().unwrap_or(0) as usize * (all.len() - 1) >> 16);
+        let mut left = combine_ingredients(&all[..cut]);
+        let right = combine_ingredients(&all[cut..]);
+        if let Err(p) = guard(|| cooklang_bindings::model::merge_ingredient_lists(&mut left, &right)) {
+            vbail!("c19.panic.combine", "merge_ingredient_lists panicked: {p}");
+        }
+        check_combined(&left, &all_q, "merge_ingredient_lists(combine(a), combine(b))")?;
+    }
     st.class_if(all.len() > 3, "combine >3 ingredients");
     st.class_if(model_combine(&all_q).values().any(|c| c.count > 1), "combine merges entries");
     Ok(())
@@ -299,7 +309,7 @@ pub fn run(tier: Tier) -> i32 {
     let mut run = Run::new("C19", tier);
     run.assume("the bindings crate is compiled as an rlib from /repo/bindings/src/lib.rs through a shadow manifest (the real crate types are cdylib/staticlib)");
     run.assume("Amount has crate-private fields: it is compared through its Debug rendering; a timer name None is equivalent to Some(\"\"); text concatenation order in combined text entries is not constrained");
-    run.replay_regressions(&|_p, j| check(&case_from(j)?, &mut Stats::default()));
+    run.replay_regressions(&|p, j| replay(p, j));
     if !run.failed() {
         run_prop(
             &mut run,
@@ -318,9 +328,31 @@ pub fn run(tier: Tier) -> i32 {
             check,
         );
     }
+    if !run.failed() {
+        run_prop(
+            &mut run,
+            "mirror-any-accepted-input",
+            "random line documents and token soups: whenever the canonical parser accepts the text, parse_recipe must mirror the core recipe (items incl. consecutive text items from stray markers, tables, refs, deref); non-trivial = accepted and has a component or two text items in a row",
+            || prop_oneof![crate::soup::lines_strategy(), crate::soup::soup_strategy(30)],
+            tier.pick(40_000, 4_000_000),
+            |c: &crate::soup::InputCase, st| {
+                let src = c.input();
+                if let Some((igrs, _)) = check_mirror(&src, 1.0 + (c.ext % 3) as f64, st)? {
+                    if !igrs.is_empty() || src.contains('@') || src.contains('#') {
+                        st.nontrivial(&src);
+                    }
+                }
+                Ok(())
+            },
+        );
+    }
     run.finish()
 }
 
-pub fn replay(_p: &str, j: &serde_json::Value) -> Verdict {
+pub fn replay(part: &str, j: &serde_json::Value) -> Verdict {
+    if part == "mirror-any-accepted-input" {
+        let c: crate::soup::InputCase = case_from(j)?;
+        return check_mirror(&c.input(), 1.0 + (c.ext % 3) as f64, &mut Stats::default()).map(|_| ());
+    }
     check(&case_from(j)?, &mut Stats::default())
 }
